@@ -66,7 +66,7 @@ fn scan(p: &crate::model::ast::Pipeline, is_sub: bool, sorted_sub: &mut bool, cs
 }
 
 pub const ALL_HAZARDS: &[&str] = &[
-    "dup_select", "dup_names", "neg_neg", "open_take", "drop_agg", "wild_helpers", "append_free", "int_divi",
+    "dup_select", "dup_names", "open_take", "drop_agg", "wild_helpers", "append_free", "int_divi",
     "unframed_last", "sorted_let", "const_null_fold", "shadow", "const_group_key", "compound_agg", "win_over_win",
     "mul_right", "sorted_group_derive", "sort_key_rename", "dropped_key_join", "wild_let", "const_fold",
     "group_take_sort_agg", "resort_after_take", "sort_by_windowed", "take_far_from_sort", "sorted_aggregate",
